@@ -199,6 +199,60 @@ func c02Concurrent(c *vlib.Ctx) {
 			break
 		}
 		c.Count("concurrent_decodes", G*6*len(items)/2)
+		// (3b) inputs nobody has decoded before in this process, all of one layer type, decoded for the first time by
+		// several goroutines at once: a decoder that fills a cache or table on first sight of a value writes shared
+		// state exactly then (the sequential reference decode above would have done the write under a happens-before
+		// edge). The reference is computed afterwards.
+		{
+			t := cp.Types[(round*7+c.Batch)%len(cp.Types)]
+			type fresh struct {
+				b []byte
+				s sig.PacketSig
+				p bool
+			}
+			per := make([][]fresh, G)
+			for g := 0; g < G; g++ {
+				rg := r.Fork()
+				for k := 0; k < 24; k++ {
+					b, _ := cp.Input(rg, t)
+					per[g] = append(per[g], fresh{b: b})
+				}
+				if sd := cp.Seeds[t]; len(sd) > 0 && g < 2 {
+					sw := cp.ByteSweepWide(sd[rg.Intn(min(len(sd), 4))], 96)
+					for k := 0; k < 40 && len(sw) > 0; k++ {
+						per[g] = append(per[g], fresh{b: sw[rg.Intn(len(sw))]})
+					}
+				}
+			}
+			o := gopacket.DecodeOptions{DecodeStreamsAsDatagrams: true}
+			var wg2 sync.WaitGroup
+			for g := 0; g < G; g++ {
+				wg2.Add(1)
+				go func(g int) {
+					defer wg2.Done()
+					for i := range per[g] {
+						s, pi := c02Sig(per[g][i].b, t, o)
+						per[g][i].s, per[g][i].p = s, pi != nil
+					}
+				}(g)
+			}
+			wg2.Wait()
+			for g := 0; g < G; g++ {
+				for _, f := range per[g] {
+					s, pi := c02Sig(f.b, t, o)
+					if (pi != nil) != f.p {
+						continue
+					}
+					if pi == nil {
+						if ok, what := s.Equal(f.s); !ok {
+							c.Violation("concurrent-decode-differs:first-sight", fmt.Sprintf("%s input decoded for the first time concurrently with others differs from decoding it again alone: %s", t, what), map[string]any{"first_layer": t.String(), "input_hex": hx(f.b)})
+							break
+						}
+					}
+				}
+			}
+			c.Count("first_sight_concurrent_decodes", G*24)
+		}
 		// (4) one eager packet, several readers including checksum verification and rendering
 		for k := 0; k < 6; k++ {
 			it := items[r.Intn(len(items))]
